@@ -216,13 +216,20 @@ impl Property for C07 {
                 })
             })
         });
-        Box::new(single.chain(small).chain(rt).chain(pairs).chain(history::long_repeats(quick).into_iter().map(Case::Hist)))
+        let cross = history::cross_sequences(quick).into_iter().map(Case::Hist);
+        Box::new(single.chain(small).chain(rt).chain(pairs).chain(cross).chain(history::long_repeats(quick).into_iter().map(Case::Hist)))
     }
     fn fuzz_plans(&self) -> Vec<(&'static str, u64)> {
         vec![("history", 10000)]
     }
     fn gen(&self, c: &mut Choices) -> Case {
-        Case::Hist(history::gen_history(c, None))
+        // "+1 per successful update" holds for every update call, whoever signs: a third of the histories may
+        // sign with a CombinedKey of the other variant
+        if c.chance(85) {
+            Case::Hist(history::gen_history_cross(c))
+        } else {
+            Case::Hist(history::gen_history(c, None))
+        }
     }
     fn check(&self, case: &Case, st: &mut Stats) -> Result<(), String> {
         let h = match case {
